@@ -22,6 +22,7 @@ import NomtModel.Driver.HasherMode
 import NomtModel.Driver.CachesMode
 import NomtModel.Driver.ExtRangeMode
 import NomtModel.Driver.OpenPathMode
+import NomtModel.Driver.StageGlueMode
 /-!
 `nomt_model`: the executable Lean model behind a line protocol.
 First argument selects the sub-protocol; stdin → stdout, one output line per input line.
@@ -63,4 +64,5 @@ def main (args : List String) : IO UInt32 := do
   | ["caches"] => loop stdin stdout cachesStep {}; return 0
   | ["extrange"] => loop stdin stdout extrangeStep {}; return 0
   | ["openpath"] => loop stdin stdout openpathStep (); return 0
+  | ["stageglue"] => loop stdin stdout stageglueStep {}; return 0
   | _ => IO.eprintln "usage: nomt_model <core|...>"; return 2
